@@ -119,6 +119,9 @@ var opProgs = []totalProg{
 	{"[a, b]", []string{"a", "b"}, []*types.Type{tNum, tNum}},
 	{"[s: a, u: b]", []string{"s", "u", "a", "b"}, []*types.Type{tStr, tStr, tNum, tNum}},
 	{"{x: a, y: s}", []string{"a", "s"}, []*types.Type{tNum, tStr}},
+	// a string literal with the text of an identifier / field name
+	{"s == \"s\"", []string{"s"}, []*types.Type{tStr}},
+	{"{a: \"a\", b: \"p\"}.a + p.b + m[\"m\"] == p.b", []string{"p", "m"}, []*types.Type{TObjAB, types.Map(tStr, tStr)}},
 }
 
 func progEnv(p totalProg) map[string]*types.Type {
